@@ -26,8 +26,8 @@ ASSUMPTIONS = ["C07_binding: every data line carries the same number c >= 1 of v
 DECL = {}
 
 
-def make_doc(rng, d, c, r, wrapped, plain=False):
-    cells = [[str(1000 * i + j) for j in range(c)] for i in range(r)]
+def make_doc(rng, d, c, r, wrapped, plain=False, textidx=False):
+    cells = [[("T%d" % i) if (textidx and j == 0) else str(1000 * i + j) for j in range(c)] for i in range(r)]
     body = []
     for row in cells:
         if wrapped:
@@ -56,7 +56,20 @@ def rect(run, case, r):
         run.fail("equal-lengths", case, {"lengths": [len(c[2]) if c[1] != "?" else c[2] for c in r["res"][1]]})
 
 
+def dlm_doc(rng, spelling, c, r):
+    """d = c curves, one depth step per line, cells cut by the delimiter the spelling names (when it names one)"""
+    sep = {"COMMA": ",", "TAB": "\t"}.get(spelling.strip().upper(), " ")
+    pad = rng.choice(["", " "]) if sep != " " else ""
+    body = [(pad + sep + pad).join(str(1000 * i + j) for j in range(c)) for i in range(r)]
+    decl = dd.names(c)
+    head = dd.header(dlm=spelling, declared=decl)
+    text = dd.assemble(head, "~A", body, [])
+    DECL[text] = decl
+    return text
+
+
 def oracle(run, case, res, d, c, r):
+    textidx = bool(case.get("textidx"))
     if res["res"][0] != "ok":
         run.fail("read-error", case, res["res"])
         return
@@ -81,13 +94,17 @@ def oracle(run, case, res, d, c, r):
         else:
             if item.original_mnemonic != "" or item.unit != "" or item.descr != "":
                 run.fail("surplus-unnamed", case, {"curve": j, "got": [item.original_mnemonic, item.unit, item.descr]})
-        if j < c:
+        if j < c and textidx and j == 0:
+            if [str(x) for x in las.curves[0].data.tolist()] != ["T%d" % i for i in range(r)]:
+                run.fail("cell-binding", case, {"curve": j, "got": data})
+        elif j < c:
             want = [dd.fhex(float(1000 * i + j)) for i in range(r)]
             if kind != "f" or data != want:
                 run.fail("cell-binding", case, {"curve": j, "got": data, "want": want})
         else:
-            if kind != "f" or any(x != "nan" for x in data):
-                run.fail("missing-nan", case, {"curve": j, "got": data})
+            arr = las.curves[j].data
+            if kind != "f" or any(x != "nan" for x in data) or arr.dtype.kind != "f":
+                run.fail("missing-nan", case, {"curve": j, "got": data, "dtype": str(arr.dtype)})
 
 
 def run(run):
@@ -134,6 +151,31 @@ def run(run):
                             oracle(run, case, res, d, c, r)
                             dd.compare(run, "grid/" + eng, text, {"engine": eng}, res, True, case=case)
     run.exhaustive = True
+    # a TEXT index column (time stamps): the declared curves without a column are still float NaN of the common length
+    for d in range(1, 6):
+        for c in range(1, 5):
+            for r in (1, 3):
+                for rep in range(run.budget(2, 6)):
+                    text = make_doc(run.rng, d, c, r, False, plain=(rep == 0), textidx=True)
+                    for eng in ("numpy", "normal"):
+                        case = {"text": text, "d": d, "c": c, "r": r, "wrapped": False, "engine": eng, "textidx": True}
+                        run.case(case, nontrivial=True, tags=["text-index", "d<c" if d < c else "d=c" if d == c else "d>c"])
+                        res = dd.real_read(text, engine=eng)
+                        oracle(run, case, res, d, c, r)
+                        dd.compare(run, "textidx/" + eng, text, {"engine": eng}, res, False, case=case)
+    # the DLM item in other spellings: the three documented names must work; whatever else is accepted must still bind column j
+    # to curve j (a read that raises is outside "after any successful read")
+    for spelling in ("COMMA", "TAB", "SPACE", "Comma", "comma", "Tab", "tab", "Space", "space", " COMMA"):
+        for c in (1, 2, 3, 5):
+            for r in (1, 3):
+                text = dlm_doc(run.rng, spelling, c, r)
+                for eng in ("numpy", "normal"):
+                    case = {"text": text, "d": c, "c": c, "r": r, "wrapped": False, "engine": eng, "dlm": spelling}
+                    run.case(case, nontrivial=True, tags=["dlm-spelling", "dlm=" + spelling.strip()])
+                    res = dd.real_read(text, engine=eng)
+                    if res["res"][0] == "ok" or spelling in ("COMMA", "TAB", "SPACE"):
+                        oracle(run, case, res, c, c, r)
+                    dd.compare(run, "dlm-spelling/" + eng, text, {"engine": eng}, res, False, case=case)
     # wrapped with more columns than one line holds, long rows
     for _ in range(run.budget(60, 1500)):
         d = run.rng.randint(1, 14)
